@@ -466,4 +466,14 @@ class Check(Property):
                     v.append(f"C18 {name}: objects of the same lazily built registry do not combine")
             except Exception as exc:  # noqa: BLE001
                 v.append(f"C18 {name}: raised {type(exc).__name__}: {exc}")
+        # every entry point as the FIRST use of a not yet built lazy registry: same answer as the explicitly built one
+        firsts = [("'meter' in r", lambda r: "meter" in r), ("'zork9' in r", lambda r: "zork9" in r),
+                  ("len(list(iter(r))) > 100", lambda r: len(list(iter(r))) > 100), ("r['meter']", lambda r: str(r["meter"])),
+                  ("r('2 m')", lambda r: str(r("2 m"))), ("r.meter", lambda r: str(r.meter)), ("r.default_system", lambda r: r.default_system),
+                  ("r.get_dimensionality('newton')", lambda r: str(r.get_dimensionality("newton")))]
+        for label, fn in firsts:
+            got = capture(lambda: fn(pint.LazyRegistry()))
+            want = capture(lambda: fn(explicit))
+            if got != want:
+                v.append(f"C18 first use of a lazy registry, {label}: {got}; an explicitly built registry gives {want}")
         return v
